@@ -55,6 +55,12 @@ def requests():
     yield "ip:isr_matrix_block(2,h,h)", lambda: m2.isr_matrix_block(2, "h,h", "i,j"), "ij"
     yield "expec_block_contribution(1,ph,ph)", lambda: pr.expec_block_contribution(1, "ph,ph", 1), ""
     yield "trans_moment_space(1,ph)", lambda: pr.trans_moment_space(1, "ph", 1), ""
+    # RE partitioning: H0 / H1 are selected by block-exclusion rules that name the Fock matrix and the ERI
+    op3, gs3, isr3, m3, pr3 = fresh(part="re")
+    yield "re:energy(1)", lambda: gs3.energy(1), ""
+    yield "re:energy(2)", lambda: gs3.energy(2), ""
+    yield "re:amplitude_residual(2,ph,ia)", lambda: gs3.amplitude_residual(2, "ph", "ia"), "ia"
+    yield "re:amplitude_residual(1,pphh,ijab)", lambda: gs3.amplitude_residual(1, "pphh", "ijab"), "ijab"
 
 
 def disjointness():
